@@ -20,6 +20,7 @@ import CtyModel.Lemmas.d18Num
 import CtyModel.Lemmas.d18Cval
 import CtyModel.Lemmas.d18ToCty
 import CtyModel.Generated.IntBounds
+import CtyModel.Lemmas.GoctyFnsTie
 namespace CtyModel
 namespace C18
 open Gocty
@@ -41,18 +42,18 @@ theorem bounds_table :
 /-- The tie of that table to the source: `Generated.intBounds` / `uintBounds` are
 re-extracted from the `switch target.Type().Bits()` of `fromCtyNumberInt` /
 `fromCtyNumberUInt` in cty/gocty/out.go on every check (a changed bound, a new or
-removed case, or a changed range test makes this theorem fail to check).  Every
-row of the source is a row of the model's table with the same bounds, the model
-panics ("weird number of bits") exactly where the source has no case, and the
-refusal tests are the ones `fromNumInt` / `fromNumUInt` transliterate. -/
+removed case makes this theorem fail to check).  Every
+row of the source is a row of the model's table with the same bounds, and the model
+panics ("weird number of bits") exactly where the source has no case.  (The refusal
+tests themselves are no longer compared as TEXT — a renamed local broke that tie
+without a change of meaning: they are part of the translated definitions, see
+`generated_decoders_eq` below.) -/
 theorem bounds_table_is_source :
     Generated.intBounds.map (fun r => (r.1, intMinMax r.1)) = Generated.intBounds.map (fun r => (r.1, some r.2)) ∧
     Generated.uintBounds.map (fun r => (r.1, uintMax r.1)) = Generated.uintBounds.map (fun r => (r.1, some r.2)) ∧
     (∀ b, b ∉ Generated.intBounds.map (·.1) → intMinMax b = none) ∧
-    (∀ b, b ∉ Generated.uintBounds.map (·.1) → uintMax b = none) ∧
-    Generated.intRangeTest = "accuracy != big.Exact || iv < min || iv > max" ∧
-    Generated.uintRangeTest = "accuracy != big.Exact || !bf.IsInt() || iv > max" := by
-  refine ⟨by decide, by decide, fun b hb => ?_, fun b hb => ?_, by decide, by decide⟩
+    (∀ b, b ∉ Generated.uintBounds.map (·.1) → uintMax b = none) := by
+  refine ⟨by decide, by decide, fun b hb => ?_, fun b hb => ?_⟩
   · have h : Generated.intBounds.map (·.1) = [8, 16, 32, 64] := by decide
     rw [h] at hb
     unfold intMinMax
@@ -720,6 +721,137 @@ example : ¬ ∃ k : Int, IsTheInt (Num.mk false 3 (-1) 64) k := by
 example : (∀ w ∈ [(⟨.string, .s "a"⟩ : Value), ⟨.string, .unk .unref⟩], w.ty = .string) ∧ isDynTy .string = false ∧
     Ty.equals .string .string = true := by
   refine ⟨by simp, rfl, by decide⟩
+
+/-! ### The regenerated-model tie (number, bool and string decoding)
+
+`Generated.GoctyFns.*` are NOT hand-written: `extract/translate_gocty.go` translates the bodies of `fromCtyNumber`,
+`fromCtyNumberInt`, `fromCtyNumberUInt`, `fromCtyNumberFloat`, `fromCtyNumberBig`, `fromCtyBool`, `fromCtyString` and
+`likelyRequiredTypesError` (cty/gocty/out.go) into Lean on every check — the `min`/`max` switch tables, the accuracy and
+`IsInt` tests, the infinity guards and the dispatch on the target's kind included.  `math/big`, `reflect` and the three
+`cty.Value` accessors are the given API (`CtyModel/GoctyGo.lean`: the hand-written `Num` model).  A generated decoder takes
+the number, the target's type and the value the target holds before (immaterial: `tv`) and returns what it holds afterwards.
+`generated_*_eq` say that the source text computes what the hand-written model computes (up to the TEXT of an error or
+panic, `GoctyFnsTie.er`), so the number theorems above hold of the translated source; the `*_generated` corollaries state
+them directly about it.  A source edit that changes the meaning makes these proofs fail; an edit that leaves the translated
+fragment makes the extractor fail. -/
+
+/-- `fromCtyNumber` as written in the source is the model's `fromNum`, for every number and EVERY target type -/
+theorem generated_fromCtyNumber_eq (x : Num) (T : GoTy) (tv : GoVal) :
+    GoctyFnsTie.er (Generated.GoctyFns.fromCtyNumber ⟨.number, .n x⟩ T tv) = GoctyFnsTie.er (fromNum x T) :=
+  GoctyFnsTie.fromCtyNumber_eq x T tv
+
+/-- … and as `fromCtyValue` calls it (marks pushed down from the containers included, any target that is neither a
+pointer nor `cty.Value`) it is the number case of the model of `fromCtyValue` -/
+theorem generated_fromCtyNumber_eq_fromCtyP (S : Sched) (ms : List String) (x : Num) (T : GoTy) (tv : GoVal)
+    (hd : T.depth = 0) (hc : T.isCval = false) :
+    GoctyFnsTie.er (Generated.GoctyFns.fromCtyNumber ⟨.number, pushMarks ms (.n x)⟩ T tv) =
+      GoctyFnsTie.er (fromCtyP S ms .number (.n x) T) :=
+  GoctyFnsTie.fromCtyNumber_eq_fromCtyP S ms x T tv hd hc
+
+/-- `fromCtyBool` as written in the source is the bool case of the model of `fromCtyValue` -/
+theorem generated_fromCtyBool_eq (S : Sched) (ms : List String) (b : Bool) (T : GoTy) (tv : GoVal)
+    (hd : T.depth = 0) (hc : T.isCval = false) :
+    GoctyFnsTie.er (Generated.GoctyFns.fromCtyBool ⟨.bool, pushMarks ms (.b b)⟩ T tv) =
+      GoctyFnsTie.er (fromCtyP S ms .bool (.b b) T) :=
+  GoctyFnsTie.fromCtyBool_eq_fromCtyP S ms b T tv hd hc
+
+/-- `fromCtyString` as written in the source is the string case of the model of `fromCtyValue` -/
+theorem generated_fromCtyString_eq (S : Sched) (ms : List String) (v : String) (T : GoTy) (tv : GoVal)
+    (hd : T.depth = 0) (hc : T.isCval = false) :
+    GoctyFnsTie.er (Generated.GoctyFns.fromCtyString ⟨.string, pushMarks ms (.s v)⟩ T tv) =
+      GoctyFnsTie.er (fromCtyP S ms .string (.s v) T) :=
+  GoctyFnsTie.fromCtyString_eq_fromCtyP S ms v T tv hd hc
+
+/-- the four width-specific decoders, each as written in the source, are the model's -/
+theorem generated_decoders_eq (x : Num) (tv : GoVal) :
+    (∀ w, GoctyFnsTie.er (Generated.GoctyFns.fromCtyNumberInt x (.int w true) tv) =
+            GoctyFnsTie.er (mapRes GoVal.int (fromNumInt x w.bits))) ∧
+    (∀ w, GoctyFnsTie.er (Generated.GoctyFns.fromCtyNumberUInt x (.int w false) tv) =
+            GoctyFnsTie.er (mapRes GoVal.int (fromNumUInt x w.bits))) ∧
+    (∀ is32, GoctyFnsTie.er (Generated.GoctyFns.fromCtyNumberFloat x (.float is32) tv) =
+            GoctyFnsTie.er (mapRes GoVal.flt (fromNumFloat x is32))) ∧
+    (∀ T, GoctyGo.kindOf T = .kStruct →
+            GoctyFnsTie.er (Generated.GoctyFns.fromCtyNumberBig x T tv) = GoctyFnsTie.er (fromNum x T)) :=
+  ⟨fun w => GoctyFnsTie.fromCtyNumberInt_eq x w tv, fun w => GoctyFnsTie.fromCtyNumberUInt_eq x w tv,
+   fun b => GoctyFnsTie.fromCtyNumberFloat_eq x b tv, fun T h => GoctyFnsTie.fromCtyNumberBig_eq x T tv h⟩
+
+theorem generated_ok_iff (x : Num) (T : GoTy) (tv g : GoVal) :
+    Generated.GoctyFns.fromCtyNumber ⟨.number, .n x⟩ T tv = .ok g ↔ fromNum x T = .ok g := by
+  rw [← GoctyFnsTie.er_eq_ok, generated_fromCtyNumber_eq, GoctyFnsTie.er_eq_ok]
+
+/-- `int_ok_iff`, about the translated source: the decoder written in out.go succeeds on an integer target iff the
+number is whole and within the type's range, and then the target holds exactly that integer (the conversion
+`SetInt`/`SetUint` perform to the target's width included) -/
+theorem int_ok_iff_generated (x : Num) (hx : normalNum x = true) (w : IntW) (s : Bool) (tv g : GoVal) :
+    Generated.GoctyFns.fromCtyNumber ⟨.number, .n x⟩ (.int w s) tv = .ok g ↔
+      ∃ k : Int, IsTheInt x k ∧ lo w.bits s ≤ k ∧ k ≤ hi w.bits s ∧ g = .int k := by
+  rw [generated_ok_iff]; exact fromNum_int_ok_iff x hx w s g
+
+/-- `int_err_otherwise`, about the translated source -/
+theorem int_err_otherwise_generated (x : Num) (hx : normalNum x = true) (w : IntW) (s : Bool) (tv : GoVal)
+    (h : ¬ ∃ k : Int, IsTheInt x k ∧ lo w.bits s ≤ k ∧ k ≤ hi w.bits s) :
+    ∃ c, Generated.GoctyFns.fromCtyNumber ⟨.number, .n x⟩ (.int w s) tv = .err c := by
+  obtain ⟨c, hc⟩ := int_err_otherwise x hx w s h
+  have := generated_fromCtyNumber_eq x (.int w s) tv
+  rw [hc] at this
+  exact GoctyFnsTie.er_eq_err.mp this
+
+/-- `float_ok_iff`, about the translated source -/
+theorem float_ok_iff_generated (x : Num) (is32 : Bool) (tv g : GoVal) :
+    Generated.GoctyFns.fromCtyNumber ⟨.number, .n x⟩ (.float is32) tv = .ok g ↔
+      ∃ f, g = .flt f ∧ f = (if is32 then Num.f64to32 x.toF64.1 else x.toF64.1) ∧
+        (x.isInf = true ∨ f.isInf = false) := by
+  rw [generated_ok_iff]; exact float_ok_iff x is32 g
+
+/-- `float_err_otherwise`, about the translated source -/
+theorem float_err_otherwise_generated (x : Num) (is32 : Bool) (tv : GoVal)
+    (h : x.isInf = false ∧ (if is32 then Num.f64to32 x.toF64.1 else x.toF64.1).isInf = true) :
+    ∃ c, Generated.GoctyFns.fromCtyNumber ⟨.number, .n x⟩ (.float is32) tv = .err c := by
+  obtain ⟨c, hc⟩ := float_err_otherwise x is32 h
+  have := generated_fromCtyNumber_eq x (.float is32) tv
+  rw [hc] at this
+  exact GoctyFnsTie.er_eq_err.mp this
+
+/-- `bigInt_ok_iff`, about the translated source: no width limit, whole numbers only -/
+theorem bigInt_ok_iff_generated (x : Num) (hx : normalNum x = true) (tv g : GoVal) :
+    Generated.GoctyFns.fromCtyNumber ⟨.number, .n x⟩ .bigInt tv = .ok g ↔ ∃ k : Int, IsTheInt x k ∧ g = .bigInt k := by
+  rw [generated_ok_iff]; exact fromNum_bigInt_ok_iff x hx g
+
+/-- `bigFloat_stores_exactly`, about the translated source -/
+theorem bigFloat_stores_exactly_generated (x : Num) (tv : GoVal) :
+    Generated.GoctyFns.fromCtyNumber ⟨.number, .n x⟩ .bigFloat tv = .ok (.bigFloat x) := by
+  rw [generated_ok_iff]; rfl
+
+/-- `bounds_table`, about the translated source: the decoder written in out.go panics on no integer type, and what
+it accepts for a `b`-bit type is exactly −2^(b−1) … 2^(b−1)−1 (signed) or 0 … 2^b−1 (unsigned) -/
+theorem bounds_table_generated (w : IntW) (s : Bool) (k : Int) (tv : GoVal) :
+    Generated.GoctyFns.fromCtyNumber ⟨.number, .n (Num.ofInt k)⟩ (.int w s) tv =
+        .ok (.int k) ↔ (if s then -(2 : Int) ^ (w.bits - 1) else 0) ≤ k ∧
+          k ≤ (if s then (2 : Int) ^ (w.bits - 1) - 1 else (2 : Int) ^ w.bits - 1) := by
+  have hn : normalNum (Num.ofInt k) = true := normalNum_mk _ _ _ _
+  rw [int_ok_iff_generated _ hn]
+  have hb := (bounds_table.2.2.2 w.bits s)
+  rw [← hb.1, ← hb.2]
+  constructor
+  · rintro ⟨k', h1, h2, h3, h4⟩
+    cases h4; exact ⟨h2, h3⟩
+  · rintro ⟨h2, h3⟩
+    exact ⟨k, IsTheInt_ofInt k 64, h2, h3, rfl⟩
+
+/-- a marked number panics in the translated source as in the model (`marked_can_panic`) -/
+theorem marked_number_panics_generated (ms : List String) (p : Payload) (T : GoTy) (tv : GoVal) :
+    ∃ w, Generated.GoctyFns.fromCtyNumber ⟨.number, .marked ms p⟩ T tv = .panic w := by
+  have := GoctyFnsTie.fromCtyNumber_marked ms p T tv
+  cases h : Generated.GoctyFns.fromCtyNumber ⟨.number, .marked ms p⟩ T tv <;> simp [h, GoctyFnsTie.er] at this
+  exact ⟨_, rfl⟩
+
+example : Generated.GoctyFns.fromCtyNumber ⟨.number, .n (Num.ofInt 127)⟩ (.int .w8 true) (.int 0) = .ok (.int 127) := by
+  rfl
+example : Generated.GoctyFns.fromCtyNumber ⟨.number, .n (Num.ofInt 128)⟩ (.int .w8 true) (.int 0) =
+    .err "value must be a whole number, between %d and %d" := by rfl
+example : Generated.GoctyFns.fromCtyNumber ⟨.number, .n (Num.mk false 3 (-1) 64)⟩ (.int .w64 false) (.int 0) =
+    .err "value must be a whole number, between 0 and %d inclusive" := by rfl
+example (tv : GoVal) : ∃ c, Generated.GoctyFns.fromCtyNumber ⟨.number, .n (Num.ofInt 1)⟩ (.slice .str) tv = .err c := ⟨_, rfl⟩
 
 end C18
 end CtyModel
